@@ -212,14 +212,9 @@ def recurse_find_python_folders_and_files(folder_io, except_paths=()):
     except_paths_relative = set()
 
     for root_folder_io, folder_ios, file_ios in folder_io.walk():
-        # Delete folders that we don't want to iterate over.
+        # The .gitignore also applies to the files next to it: read it first.
         for file_io in file_ios:
-            path = file_io.path
-            if path.suffix in ('.py', '.pyi'):
-                if path not in except_paths:
-                    yield None, file_io
-
-            if path.name == '.gitignore':
+            if file_io.path.name == '.gitignore':
                 ignored_paths_abs, ignored_paths_rel = gitignored_paths(
                     root_folder_io, file_io
                 )
@@ -229,6 +224,16 @@ def recurse_find_python_folders_and_files(folder_io, except_paths=()):
         except_paths_relative_expanded = expand_relative_ignore_paths(
             root_folder_io, except_paths_relative
         )
+
+        for file_io in file_ios:
+            path = file_io.path
+            if path.suffix in ('.py', '.pyi'):
+                # except_paths may contain both Path and str objects.
+                if path not in except_paths and str(path) not in except_paths \
+                        and str(path) not in except_paths_relative_expanded:
+                    yield None, file_io
+
+        # Delete folders that we don't want to iterate over.
 
         folder_ios[:] = [
             folder_io
